@@ -4,6 +4,7 @@ import (
 	"fmt"
 	"go/types"
 	"os"
+	"os/exec"
 	"runtime/debug"
 	"sort"
 	"strings"
@@ -79,6 +80,7 @@ type Ctx struct {
 	rel        map[*sym.Term]bool       // variable occurs in a multi-variable PC constraint
 	tvars      map[*sym.Term][]*sym.Term
 	DomDecided int // branch decisions settled by exhaustive evaluation over byte domains
+	XAll       bool // cross-check also the unsat verdicts that prune a branch
 
 	// ProbeFn, when set by a harness, turns a model of the path condition into a concrete instance of the path;
 	// it is called when the path ends because the engine cannot interpret something (see PathResult.Probe).
@@ -356,6 +358,9 @@ func (c *Ctx) Branch(cond *sym.Term) bool {
 		panic(pathEnd{Reason: "solver-unknown", Detail: "branch"})
 	}
 	if rt == sym.Unsat {
+		if c.XAll {
+			c.crossCheck(rt, []*sym.Term{cond})
+		}
 		c.trace = append(c.trace, false)
 		c.addPC(neg)
 		return false
@@ -365,6 +370,9 @@ func (c *Ctx) Branch(cond *sym.Term) bool {
 		panic(pathEnd{Reason: "solver-unknown", Detail: "branch"})
 	}
 	if rf == sym.Unsat {
+		if c.XAll {
+			c.crossCheck(rf, []*sym.Term{neg})
+		}
 		c.trace = append(c.trace, true)
 		c.addPC(cond)
 		return true
@@ -397,6 +405,7 @@ func (c *Ctx) Sat(extra ...*sym.Term) (sym.Result, map[string]uint64) {
 	}
 	extra = kept
 	r := c.S.Check(extra...)
+	c.crossCheck(r, extra)
 	if r == sym.Sat {
 		for _, v := range c.B.Vars {
 			c.S.Declare(v)
@@ -408,6 +417,18 @@ func (c *Ctx) Sat(extra ...*sym.Term) (sym.Result, map[string]uint64) {
 		}
 	}
 	return r, nil
+}
+
+// crossCheck hands the verdict of a final assertion (or, with XAll, of a branch that is about to be pruned) to
+// the second solver; contradicting solvers make the path inconclusive.
+func (c *Ctx) crossCheck(r sym.Result, extra []*sym.Term) {
+	if c.S.X == nil || r == sym.Unknown {
+		return
+	}
+	ts := append(append([]*sym.Term{}, c.PC...), extra...)
+	if !c.S.CrossCheck(r, ts) {
+		panic(pathEnd{Reason: "solver-disagreement", Detail: "z3 4.8.12 says " + r.String() + ", the second solver the opposite"})
+	}
 }
 
 func (c *Ctx) Unsupported(format string, args ...interface{}) {
@@ -471,6 +492,19 @@ func fromIntTerm(t *sym.Term, signed bool) Value {
 }
 
 // ---------------------------------------------------------------- exploration
+
+// xcheckMode: VERIF_XCHECK = off | final (default: verdicts of final assertions and model queries) | all (also
+// the unsat verdicts that prune a branch).
+func xcheckMode() string {
+	switch m := os.Getenv("VERIF_XCHECK"); m {
+	case "off", "all", "final":
+		return m
+	}
+	if _, err := exec.LookPath("z3-new"); err != nil {
+		return "off"
+	}
+	return "final"
+}
 
 type PathResult struct {
 	Trace    []bool
@@ -545,6 +579,9 @@ func (e *Engine) Explore(h Harness, o ExploreOpts) *ExploreStats {
 		go func() {
 			defer wg.Done()
 			solver := sym.NewSolver(o.SolverCmd, o.TimeoutMS)
+			if xm := xcheckMode(); xm != "off" {
+				solver.X = sym.NewSolver([]string{"z3-new", "-in"}, o.TimeoutMS)
+			}
 			defer func() {
 				mu.Lock()
 				st.Solver.Add(solver.Stats)
@@ -615,6 +652,7 @@ func (e *Engine) runPath(h Harness, prefix []bool, solver *sym.Solver, budget Bu
 		lenInfo: map[*sym.Term]lenMeta{},
 		dom:     map[*sym.Term]*[4]uint64{}, rel: map[*sym.Term]bool{}, tvars: map[*sym.Term][]*sym.Term{},
 		started: time.Now(), wall: budget.Wall,
+		XAll: xcheckMode() == "all",
 	}
 	solver.Begin()
 	res = &PathResult{}
